@@ -74,8 +74,8 @@ def quad_ops(n):
 
 def generate(tier, seed):
     lines, expect = [], {}
-    nlin = [100000, 200000] if tier == "quick" else [500000, 1000000]
-    nquad = [5000, 10000] if tier == "quick" else [10000, 20000]
+    nlin = [100000] if tier == "quick" else [500000, 1000000]
+    nquad = [5000] if tier == "quick" else [10000, 20000]
     plan = [(o, n) for n in [300] + nlin for o in ops(n)] + [(o, n) for n in [300] + nquad for o in quad_ops(n)]
     for (name, setup, req, exp), n in plan:
         ev = "EVAL " if n <= 1000 else "EVALBIG "     # the model is not run on the long lists
